@@ -22,6 +22,7 @@ pub struct HistCfg {
     pub crosscheck_every: usize,
     pub dual: bool,
     pub adaptive: bool,
+    pub sdk: bool,
 }
 
 fn log_uniform(w: &mut World, lo_bits: u32, hi_bits: u32) -> u128 {
@@ -547,6 +548,7 @@ pub fn drain(w: &World, rec: &mut Recorder) {
 pub fn run(cfg: &HistCfg, rec: &mut Recorder) {
     rec.crosscheck_every = cfg.crosscheck_every;
     rec.dual = cfg.dual;
+    rec.sdk = cfg.sdk;
     for h in 0..cfg.histories {
         let seed = cfg.seed.wrapping_mul(1_000_003).wrapping_add(h as u64);
         let (mut w, sc) = build_world(seed, &cfg.tokens, cfg.rewards, cfg.adaptive, rec);
